@@ -21,23 +21,31 @@ state, no status codes, no fuel.  `Lemmas/Refine.lean` proves that the executor 
   `evalPred : Pred → Dyn → Item → Except Err Kleene`.  Sequence comparisons (`pairs`, `verdictLax`,
   `verdictStrict`) use the model's `Exec.compareItems` on a pair of items as the atomic comparison.
 
+* **Arithmetic**: the operand sequences (`mathOperand`: lax mode unwraps arrays; an operand's error is the
+  operator's error), unary `+`/`-` on every item (`signOn`), binary operators on two singleton sequences
+  (`arithOf`, `arithOn`).  **Item methods**: `.type()`, `.size()`, the conversion methods (`convOn`) and the
+  datetime methods (`datetimeOn`), with lax auto-unwrapping of an array target.  Not in the semantics:
+  `.keyvalue()` (its ids depend on object addresses and a counter of generated objects).
+
 Only value-level helpers of the model are used: `compareItems`, `startsWith`, `likeRegex` (one pair of
-items), `typeName`, `sliceRange`, `Num.getJSONInt32`, `Item.lookup`, the immutable per-call context
-`Exec.Ctx` (mode, root, variables, time zone, regex oracle).
+items), `typeName`, `sliceRange`, `Num.getJSONInt32`, `Num.mathOp`, `Num.applyI/applyF/castJSONNumber`, the
+conversion functions `Exec.conv…` (one item), `Exec.parseDateTime`, `Time.castTo`, `Item.lookup`, and the
+immutable per-call context `Exec.Ctx` (mode, root, variables, time zone, regex oracle).
 
 ## Dialect: where the Go executor is known to deviate from the documented rules
 
-The semantics is parameterised by a `Dialect` – four switches, each a point where the Go code (and hence
+The semantics is parameterised by a `Dialect` – two switches, each a point where the Go code (and hence
 the model) deviates from the PostgreSQL rules.  `Dialect.documented` is the PostgreSQL reading;
 `Dialect.go` is what the executor does, and what the refinement theorem is proved against.
 
 * `dropNulls` (known finding D6): a JSON `null` array element selected by a subscript is dropped;
 * `unknownAbsorbs`: `(p) is unknown` is `true` when `p` raises a (non-suppressible) error, instead of
-  raising it (pinned by the Go suite's `($ == $x) is unknown` test);
-* `subscriptStrict`: in strict mode a subscript applied to a non-array is an error *even below `.**`*,
-  where PostgreSQL skips the item (`strict $.**[0]`);
-* `sizeBelowDescent`: in strict mode below `.**`, `.size()` of a non-array is `1`, where PostgreSQL skips
-  the item (`strict $.**.size()`).
+  raising it (pinned by the Go suite's `($ == $x) is unknown` test).
+
+Two further switches existed until the executor was repaired (D31, D32): in strict mode below `.**` a
+subscript on a non-array raised the error (`strict $.**[0]`), and `.size()` of a non-array answered `1`
+(`strict $.**.size()`), where PostgreSQL skips the item.  The executor now follows the documented rule
+– both cases are `structural` mismatches – so the switches are gone (`C01b.repaired_*`).
 
 ## Syntax
 
@@ -77,7 +85,7 @@ def andThen (a b : Outcome) : Outcome :=
 end Outcome
 
 /-- feed the items `xs`, in order, to `k`; stop at the first error, keeping what was produced so far -/
-def each (k : Item → Outcome) : List Item → Outcome
+def each {α : Type} (k : α → Outcome) : List α → Outcome
   | [] => .empty
   | x :: xs => (k x).andThen (each k xs)
 
@@ -99,16 +107,12 @@ structure Dialect where
   dropNulls : Bool
   /-- `is unknown` answers `true` for an operand that raises an error -/
   unknownAbsorbs : Bool
-  /-- strict subscript on a non-array: an error even where structural errors are skipped -/
-  subscriptStrict : Bool
-  /-- strict `.size()` of a non-array where structural errors are skipped: `1` instead of nothing -/
-  sizeBelowDescent : Bool
 deriving Repr, DecidableEq
 
 /-- the documented (PostgreSQL) rules -/
-def Dialect.documented : Dialect := ⟨false, false, false, false⟩
+def Dialect.documented : Dialect := ⟨false, false⟩
 /-- the rules the Go executor implements -/
-def Dialect.go : Dialect := ⟨true, true, true, true⟩
+def Dialect.go : Dialect := ⟨true, true⟩
 
 /-! ## syntax -/
 
@@ -128,6 +132,60 @@ deriving Repr, DecidableEq
 
 def CmpOp.toBinOp : CmpOp → BinOp
   | .eq => .eq | .ne => .ne | .lt => .lt | .gt => .gt | .le => .le | .ge => .ge
+
+inductive ArithOp | add | sub | mul | div | mod
+deriving Repr, DecidableEq
+
+def ArithOp.toBinOp : ArithOp → BinOp
+  | .add => .add | .sub => .sub | .mul => .mul | .div => .div | .mod => .mod
+
+/-- unary `+` / `-` -/
+inductive Sign | plus | minus
+deriving Repr, DecidableEq
+
+def Sign.cb : Sign → Num.UCallback
+  | .plus => .self
+  | .minus => .uminus
+
+def Sign.toUnOp : Sign → UnOp
+  | .plus => .plus
+  | .minus => .minus
+
+/-- the conversion methods `.number() .abs() .floor() .ceiling() .double() .integer() .bigint() .string()
+    .boolean() .decimal(p, s)` (the arguments of `.decimal` are integer literals) -/
+inductive ConvM
+  | number | abs | floor | ceiling | double | integer | bigint | string | boolean
+  | decimal (precision scale : Option Int)
+deriving Repr
+
+def ConvM.node : ConvM → Option Node → Node
+  | .number, nx => .method .number nx
+  | .abs, nx => .method .abs nx
+  | .floor, nx => .method .floor nx
+  | .ceiling, nx => .method .ceiling nx
+  | .double, nx => .method .double nx
+  | .integer, nx => .method .integer nx
+  | .bigint, nx => .method .bigint nx
+  | .string, nx => .method .string nx
+  | .boolean, nx => .method .boolean nx
+  | .decimal p s, nx => .binary .decimal (p.map fun i => .integer i none) (s.map fun i => .integer i none) nx
+
+/-- the datetime methods -/
+inductive DtM | datetime | date | time | timeTZ | timestamp | timestampTZ
+deriving Repr, DecidableEq
+
+def DtM.toUnOp : DtM → UnOp
+  | .datetime => .datetime | .date => .date | .time => .time | .timeTZ => .timeTZ
+  | .timestamp => .timestamp | .timestampTZ => .timestampTZ
+
+/-- the node of a literal argument -/
+def Lit.node : Lit → Node
+  | .null => .const .null none
+  | .bool true => .const .true_ none
+  | .bool false => .const .false_ none
+  | .int i => .integer i none
+  | .num x => .numeric x none
+  | .str s => .str s none
 
 mutual
   /-- a chain of steps, applied left to right -/
@@ -159,6 +217,14 @@ mutual
     | type
     /-- `.size()` -/
     | size
+    /-- a conversion method -/
+    | conv (m : ConvM)
+    /-- a datetime method with its optional literal argument (precision, or a template) -/
+    | datetime (m : DtM) (arg : Option Lit)
+    /-- unary `+x` / `-x` -/
+    | unary (sg : Sign) (x : Path)
+    /-- `l + r`, `l - r`, `l * r`, `l / r`, `l % r` -/
+    | arith (op : ArithOp) (l r : Path)
     /-- `?(p)` -/
     | filter (p : Pred)
     /-- a predicate in item position (`$.a == 1`, `exists(…)`, …): its truth value as an item -/
@@ -218,12 +284,96 @@ def elementsOf (c : Ctx) (ρ : Dyn) : Item → Outcome
   | v => if c.lax then .one v else structural ρ
 
 /-- `.size()` -/
-def sizeOf (c : Ctx) (q : Dialect) (ρ : Dyn) : Item → Outcome
+def sizeItem (c : Ctx) (ρ : Dyn) : Item → Outcome
   | .arr xs => .one (.int xs.length)
-  | _ =>
-    if c.lax then .one (.int 1)
-    else if !ρ.ign then .fail .verbose
-    else if q.sizeBelowDescent then .one (.int 1) else .empty
+  | _ => if c.lax then .one (.int 1) else structural ρ
+
+/-- arrays in an operand sequence are replaced by their elements (lax mode, one level) -/
+def unwrapSeq (xs : List Item) : List Item :=
+  xs.flatMap fun x => match x with | .arr ys => ys | x => [x]
+
+/-- the conversion function of a method on a non-array item (`Exec.conv…`: value level) -/
+def ConvM.fn : ConvM → Item → Exec.Conv
+  | .number => Exec.convNumber none
+  | .abs => Exec.convNumericItem .abs
+  | .floor => Exec.convNumericItem .floor
+  | .ceiling => Exec.convNumericItem .ceil
+  | .double => Exec.convDouble
+  | .integer => Exec.convInteger
+  | .bigint => Exec.convBigInt
+  | .string => Exec.convString
+  | .boolean => Exec.convBoolean
+  | .decimal p s => Exec.convNumber (some (p.map fun i => .integer i none, s.map fun i => .integer i none))
+
+/-- a conversion method on one item (no unwrapping): an array is an error; otherwise the converted value,
+    or the method's error (suppressible, or not) -/
+def convOn (m : ConvM) : Item → Outcome
+  | .arr _ => .fail .verbose
+  | v =>
+    match m.fn v with
+    | .val out => .one out
+    | .verbose => .fail .verbose
+    | .hard k => .fail (.hard k)
+    | .viaReturnError e => .fail e
+
+/-- the datetime value of a string for a method: parse, then cast to the method's type -/
+def datetimeOf (c : Ctx) (m : DtM) (arg : Option Lit) (src : List Char) : Except Err DateTime :=
+  let parsed : Except Err DateTime :=
+    if m = .datetime && arg.isSome then .error (.hard .template)
+    else Exec.parseDateTime c m.toUnOp src (arg.map Lit.node)
+  match parsed with
+  | .error e => .error e
+  | .ok d =>
+    match Exec.kindOfOp m.toUnOp with
+    | none => .ok d
+    | some k =>
+      match Time.castTo c.env c.useTZ k d with
+      | .ok d' => .ok d'
+      | .error .notRecognized => .error .verbose
+      | .error .tzRequired => .error (.hard .tzRequired)
+
+/-- a datetime method on one item (no unwrapping): only strings convert -/
+def datetimeOn (c : Ctx) (m : DtM) (arg : Option Lit) : Item → Outcome
+  | .str src =>
+    match datetimeOf c m arg src with
+    | .error e => .fail e
+    | .ok d => .one (.dt d)
+  | _ => .fail .verbose
+
+/-- the operand sequence of an arithmetic operator: an error of the operand is the operator's error; in
+    lax mode arrays in the sequence are unwrapped -/
+def mathOperand (c : Ctx) (o : Outcome) : Except Err (List Item) :=
+  match o.err with
+  | some e => .error e
+  | none => .ok (if c.lax then unwrapSeq o.items else o.items)
+
+/-- unary `+`/`-` on one item: numbers only -/
+def signOn (cb : Num.UCallback) : Item → Outcome
+  | .int i => .one (.int (Num.applyI cb i))
+  | .flt x => .one (.flt (Num.applyF cb x))
+  | .jnum t =>
+    match Num.castJSONNumber t cb with
+    | some v => .one v
+    | none => .fail .verbose
+  | _ => .fail .verbose
+
+/-- unary `+`/`-`: applied to every item of the operand sequence -/
+def unaryOf (cb : Num.UCallback) : Except Err (List Item) → Outcome
+  | .error e => .fail e
+  | .ok xs => each (signOn cb) xs
+
+/-- the result of a binary operator on two numbers: a finite number, or the suppressible error -/
+def arithOn (op : BinOp) (l r : Item) : Outcome :=
+  match Num.mathOp l r op with
+  | .error _ => .fail .verbose
+  | .ok val => if Exec.nonFiniteItem val then .fail .verbose else .one val
+
+/-- a binary operator: both operands must be singleton sequences (the left one is checked first) -/
+def arithOf (op : BinOp) : Except Err (List Item) → Except Err (List Item) → Outcome
+  | .error e, _ => .fail e
+  | .ok [_], .error e => .fail e
+  | .ok [l], .ok [r] => arithOn op l r
+  | .ok _, _ => .fail .verbose
 
 def isContainer : Item → Bool
   | .arr _ | .obj _ => true
@@ -310,10 +460,6 @@ inductive Operand
   | unknown
   | error (e : Err)
 
-/-- arrays in an operand sequence are replaced by their elements (lax mode, one level) -/
-def unwrapSeq (xs : List Item) : List Item :=
-  xs.flatMap fun x => match x with | .arr ys => ys | x => [x]
-
 /-- the operand of a predicate: a suppressible error makes the predicate `unknown`, any other error is
     raised; in lax mode the sequence is unwrapped when the predicate asks for it -/
 def operand (c : Ctx) (unwrap : Bool) (o : Outcome) : Operand :=
@@ -378,8 +524,29 @@ def truthItem : Except Err Kleene → Outcome
   | .error e => .fail e
   | .ok k => .one (kleeneItem k)
 
+/-- `p && p'`: Kleene conjunction, left to right; an error of the operand that decides is raised -/
+def andOf : Except Err Kleene → Except Err Kleene → Except Err Kleene
+  | .error e, _ => .error e
+  | .ok .f, _ => .ok .f
+  | .ok _, .error e => .error e
+  | .ok a, .ok b => .ok (and3 a b)
+
+/-- `p || p'` -/
+def orOf : Except Err Kleene → Except Err Kleene → Except Err Kleene
+  | .error e, _ => .error e
+  | .ok .t, _ => .ok .t
+  | .ok _, .error e => .error e
+  | .ok a, .ok b => .ok (or3 a b)
+
+/-- `!p` -/
+def notOf : Except Err Kleene → Except Err Kleene
+  | .error e => .error e
+  | .ok a => .ok (not3 a)
+
+/-- `(p) is unknown`.  (Under `unknownAbsorbs` every error of `p` counts as "unknown" – except the
+    cancellation error, which no rule of this semantics produces and which is never absorbed.) -/
 def isUnknownOf (q : Dialect) : Except Err Kleene → Except Err Kleene
-  | .error e => if q.unknownAbsorbs then .ok .t else .error e
+  | .error e => if q.unknownAbsorbs && e != .cancelled then .ok .t else .error e
   | .ok k => .ok (Exec.predFrom (k = .unknown))
 
 /-! ## the semantics -/
@@ -408,10 +575,15 @@ mutual
     | .index subs, ρ, v =>
       match arrayOf c v with
       | some xs => evalSubs c q subs { ρ with inn := some xs.length } v xs
-      | none => if q.subscriptStrict then .fail .verbose else structural ρ
+      | none => structural ρ
     | .any a b, _, v => .seq (descend a b v)
     | .type, _, v => .one (.str (Exec.typeName v))
-    | .size, ρ, v => sizeOf c q ρ v
+    | .size, ρ, v => sizeItem c ρ v
+    | .conv m, _, v => unwrapIf u (convOn m) v
+    | .datetime m arg, _, v => unwrapIf u (datetimeOn c m arg) v
+    | .unary sg x, ρ, v => unaryOf sg.cb (mathOperand c (eval c q x ρ v))
+    | .arith op l r, ρ, v =>
+      arithOf op.toBinOp (mathOperand c (eval c q l ρ v)) (mathOperand c (eval c q r ρ v))
     | .filter p, ρ, v => unwrapIf u (fun x => keepIf x (evalPred c q p { ρ with cur := x } x)) v
     | .pred p, ρ, v => truthItem (evalPred c q p ρ v)
   /-- a subscript list on the array `xs` (of the item `v`, on which the subscript expressions are
@@ -438,26 +610,9 @@ mutual
       predicate c Exec.startsWith (operand c true (eval c q l ρ v)) (operand c false (eval c q r ρ v))
     | .likeRegex x pat fl, ρ, v =>
       predicate c (fun l _ => Exec.likeRegex c pat fl l) (operand c true (eval c q x ρ v)) (.seq [.null])
-    | .and p p', ρ, v =>
-      match evalPred c q p ρ v with
-      | .error e => .error e
-      | .ok .f => .ok .f
-      | .ok a =>
-        match evalPred c q p' ρ v with
-        | .error e => .error e
-        | .ok b => .ok (and3 a b)
-    | .or p p', ρ, v =>
-      match evalPred c q p ρ v with
-      | .error e => .error e
-      | .ok .t => .ok .t
-      | .ok a =>
-        match evalPred c q p' ρ v with
-        | .error e => .error e
-        | .ok b => .ok (or3 a b)
-    | .not p, ρ, v =>
-      match evalPred c q p ρ v with
-      | .error e => .error e
-      | .ok a => .ok (not3 a)
+    | .and p p', ρ, v => andOf (evalPred c q p ρ v) (evalPred c q p' ρ v)
+    | .or p p', ρ, v => orOf (evalPred c q p ρ v) (evalPred c q p' ρ v)
+    | .not p, ρ, v => notOf (evalPred c q p ρ v)
     | .isUnknown p, ρ, v => isUnknownOf q (evalPred c q p ρ v)
     | .exists x, ρ, v => existsOf c (eval c q x ρ v)
 end
@@ -493,6 +648,10 @@ mutual
     | .any a b, nx => .any a b nx
     | .type, nx => .method .type nx
     | .size, nx => .method .size nx
+    | .conv m, nx => m.node nx
+    | .datetime m arg, nx => .unary m.toUnOp (arg.map Lit.node) nx
+    | .unary sg x, nx => .unary sg.toUnOp x.toNode nx
+    | .arith op l r, nx => .binary op.toBinOp l.toNode r.toNode nx
     | .filter p, nx => .unary .filter (some (p.toNode none)) nx
     | .pred p, nx => p.toNode nx
   def Subs.toNodes : Subs → List Node
@@ -514,11 +673,19 @@ end
 
 What the grammar guarantees: operands and subscript expressions are non-empty, and `last` occurs only
 inside a subscript expression (`al` = "a subscript is open here").  The steps that *follow* a subscript
-in a chain are outside its brackets. -/
+in a chain are outside its brackets.  One restriction beyond the grammar: the operand of `exists(…)` must
+not end in a unary `+`/`-` (`Path.spineOK`, known finding D8). -/
 
 def Path.nonEmpty : Path → Bool
   | .nil => false
   | .cons _ _ => true
+
+/-- the chain does not *end* in a unary `+`/`-` (known finding D8: probing such a chain answers "found"
+    without looking at the operand's items) -/
+def Path.spineOK : Path → Bool
+  | .nil => true
+  | .cons (.unary _ _) .nil => false
+  | .cons _ rest => Path.spineOK rest
 
 def Step.isIndex : Step → Bool
   | .index _ => true
@@ -533,6 +700,8 @@ mutual
     | .index subs => subs.wf
     | .filter p => p.wf al
     | .pred p => p.wf al
+    | .unary _ x => x.nonEmpty && x.wf al
+    | .arith _ l r => l.nonEmpty && l.wf al && r.nonEmpty && r.wf al
     | _ => true
   def Subs.wf : Subs → Bool
     | .nil => true
@@ -546,7 +715,7 @@ mutual
     | .or p q => p.wf al && q.wf al
     | .not p => p.wf al
     | .isUnknown p => p.wf al
-    | .exists x => x.nonEmpty && x.wf al
+    | .exists x => x.nonEmpty && x.wf al && x.spineOK
 end
 
 end Sem
